@@ -110,6 +110,20 @@ def run_case(case, pname, occ=0):
             eq('pivot', got, want)
         except Exception as e:
             problems.append('pivot raised %r' % (e,))
+    # field NAMES that are ints (a legal header): melt(key) must still read the positional complement
+    try:
+        ti = [['k', 0, 1]] + [list(r) for r in t[1:]]
+        want = [('k', 'variable', 'value')] + [x for r in t[1:] for x in ((r[0], 0, r[1]), (r[0], 1, r[2]))]
+        eq('melt(key) on a header with int field names', rows(etl.melt(ti, 'k')), want)
+    except Exception as e:
+        problems.append('melt on int field names raised %r' % (e,))
+    # fromdicts(dicts(t)) with header discovery on a SAMPLE smaller than the table
+    try:
+        if case['rows']:
+            eq('fromdicts(dicts(t), sample=1)', rows(etl.fromdicts(list(etl.dicts(t)), sample=1)), [tuple(r) for r in t])
+            eq('fromdicts(generator of dicts, sample=1)', rows(etl.fromdicts((d for d in list(etl.dicts(t))), sample=1)), [tuple(r) for r in t])
+    except Exception as e:
+        problems.append('fromdicts(sample=1) raised %r' % (e,))
     # dicts <-> fromdicts, columns <-> fromcolumns (rectangular, distinct names)
     try:
         eq('fromdicts(dicts(t))', rows(etl.fromdicts(list(etl.dicts(t)), header=case['hdr'])), [tuple(r) for r in t])
